@@ -52,8 +52,26 @@ API = {
 }
 
 
-def action_c(rule_no, ops, backend, lineno_on, bol_obs):
+# the spellings the manual has always used (macros of their own in the skeleton: BEGIN, YY_START, unput, input, yy_set_bol, YY_AT_BOL)
+LEGACY = {
+    'nr': dict(begin="BEGIN(%d);", unput="unput(%d);", input='printf("I %d\\n", (int) (unsigned char) input());',
+               setbol="yy_set_bol(%d);", start="YY_START", atbol="(int) YY_AT_BOL()"),
+    'r': dict(begin="BEGIN %d;", unput="unput(%d);", input='printf("I %d\\n", (int) (unsigned char) input(yyscanner));',
+              setbol="yy_set_bol(%d);", start="YYSTATE", atbol="(int) YY_AT_BOL()"),
+}
+_legacy = [False]
+
+
+def api(backend):
     a = API[backend]
+    if _legacy[0] and backend in LEGACY:
+        a = dict(a)
+        a.update(LEGACY[backend])
+    return a
+
+
+def action_c(rule_no, ops, backend, lineno_on, bol_obs):
+    a = api(backend)
     ln = a['lineno'] if (lineno_on or backend == 'nr') else "1"
     bol = a['atbol'] if bol_obs else "-1"
     out = []
@@ -274,6 +292,8 @@ int main(int argc, char **argv)
 def make_stream_spec(prog, acts, eofs, rng, backend, lineno_on, extra_options=None, scopes=False, prologue="", eof_unq=None):
     """acts: {rule number: [ops]}, eofs: {sc number: [ops]}"""
     defs = {}
+    # every third program of the C back ends is written with the legacy spellings
+    _legacy[0] = backend in LEGACY and (len(prog['rules']) + len(acts) + len(eofs)) % 3 == 0
     bol_obs = any(r.get('bol') for r in prog['rules'])
     nrules = len(prog['rules'])
     opts = ["nounput" if not any(o[0] == 'unput' for ops in list(acts.values()) + list(eofs.values()) for o in ops) else "",
@@ -288,7 +308,7 @@ def make_stream_spec(prog, acts, eofs, rng, backend, lineno_on, extra_options=No
     top = TOP
     if backend == 'cxx':
         top += "#include <fstream>\n#include <sstream>\n#include <string>\n"
-    a = API[backend]
+    a = api(backend)
     ln = a['lineno'] if (lineno_on or backend == 'nr') else "1"
     bol = a['atbol'] if bol_obs else "-1"
     # the default rule's ECHO becomes an event too
@@ -314,7 +334,7 @@ def make_stream_spec(prog, acts, eofs, rng, backend, lineno_on, extra_options=No
         out.append("<%s><<EOF>>\t{ %s }" % (scanner.sc_name(sc), body))
     if unq:
         # one unqualified rule for all the conditions that have no <<EOF>> rule of their own (it follows the qualified ones)
-        body = 'printf("E %%d\\n", (int) %s);' % API[backend]['start'] + " " + action_c(0, eofs[unq[0]], backend, lineno_on, bol_obs)
+        body = 'printf("E %%d\\n", (int) %s);' % api(backend)['start'] + " " + action_c(0, eofs[unq[0]], backend, lineno_on, bol_obs)
         out.append("<<EOF>>\t{ %s }" % body)
     out.append("%%")
     out.append(EV_C + MAIN[backend])
